@@ -1,0 +1,14 @@
+//go:build verif
+
+package controller
+
+import "sync"
+
+// VerifNewGenericController builds a GenericController that only holds an empty
+// certificate tracker: enough for the callers of UpdateSecret / DeleteSecret.
+func VerifNewGenericController() *GenericController {
+	return &GenericController{
+		stopLock:       &sync.Mutex{},
+		sslCertTracker: newSSLCertTracker(),
+	}
+}
